@@ -2,6 +2,8 @@
 
 STDLIB = "Go path/filepath/strings/io-fs functions are modelled (Base/Str, Base/Path), validated on the 'paths' lane, not verified"
 
+BUILDERMODEL = "Builder.lean models the queue/memo logic of sourcebundle.Builder over a finite scripted world; package content is an opaque id and the directory name a function of it (dirhash assumed injective); go-versions ordering and Set.Has come from the real library as ranks/allowed lists; fetching, ignore processing and hashing of real trees are exercised by the lanes, not modelled here"
+
 FSMODEL = "FS.lean models the Linux VFS + Go os package for the calls Unpack makes (lstat/stat/mkdir/MkdirAll/symlink/create/chmod/chtimes, kernel symlink following, umask 022, root privileges; no hard links, mount points, concurrency, ENOSPC); archive/tar + gzip are trusted as an identity between byte streams and entry lists (the harness decodes with the same library)"
 
 PROPS = {
@@ -26,10 +28,29 @@ PROPS = {
     "C12": {
         "lanes": [
             {"lane": "unpack-faults", "quick": 12, "thorough": 40},
+            {"lane": "builder-faults", "quick": 40, "thorough": 400},
+            {"lane": "builder", "quick": 600, "thorough": 10000},
         ],
-        "trusted_base": [STDLIB, FSMODEL],
+        "trusted_base": [STDLIB, FSMODEL, BUILDERMODEL],
         "assumptions": ["fault model of the reader: the stream fails (error or clean truncation) at a byte offset; fh.Close() errors inside Unpack cannot be injected through an io.Reader and are outside the property's fault model"],
         "explanation": "Unpack part: C12_unpack_ok_complete (a run that reports success did everything the fault-free run does, for every fault position), C12_unpack_header_fault_reported, C12_unpack_body_fault_reported, C12_fault_never_illegal / C12_illegal_has_culprit (policy rejections are distinguishable and have a culprit entry). Tie: 'unpack-faults' lane cuts the tar stream at every position (mapped to the model's fault by decoding with archive/tar) and compares full filesystem dumps; gzip-level read errors/truncations are judged by the oracle (success => fully materialised).",
+    },
+    "C14": {
+        "lanes": [
+            {"lane": "builder", "quick": 1500, "thorough": 40000},
+            {"lane": "builder-faults", "quick": 20, "thorough": 200},
+        ],
+        "trusted_base": [BUILDERMODEL],
+        "assumptions": ["exactly-once for fetch / version list / source address is stated for keys without a failure event (a failed fetch may be retried within the same call; the build is poisoned afterwards)"],
+        "explanation": "C14_analyse_once, C14_fetch_once, C14_versions_once, C14_source_once (counts over the call log of every run, any world, any Add sequence), C14_trace_bracketed (bracket automaton accepts every log), C14_logOK_* (log/memo-table invariant), C14_terminates (explicit fuel bound; file C14t). Tie: 'builder' lane compares the complete call/trace sequence of the real builder with the model's log on scripted worlds (cycles, diamonds, self-references, repeats) and checks exactly-once and bracketing on the real logs; watchdog for termination.",
+    },
+    "C17": {
+        "lanes": [
+            {"lane": "builder", "quick": 1500, "thorough": 40000},
+        ],
+        "trusted_base": [BUILDERMODEL, "go-versions: the version order is the library's (ranks), assumed a strict weak order on the generated versions (single pre-release identifier; 0.0.0 excluded: it is the library's 'unspecified' sentinel)"],
+        "assumptions": [],
+        "explanation": "C17_newest / C17_none_iff (selected = maximum rank among offered and allowed; none iff nothing allowed), C17_order_irrelevant (listing order), C17_cache_irrelevant(_fn) (answer is a function of world and request, whatever was resolved before), C17_final_exact, C17_none_error, C17_deprecation. Tie: 'builder' lane; oracle = brute-force maximum with the real LessThan/Has and the registry's own deprecation note.",
     },
     "C15": {
         "lanes": [
